@@ -1172,6 +1172,13 @@ func (c *Compiler) adjustJumpTargets(headerOffset uint32) {
 		opcode := c.code[i]
 		i++
 
+		if opcode == byte(vm.OpAsync) && i+4 <= len(c.code) {
+			// An async body runs on its own VM from offset 0 (executeRaw), so
+			// its jump targets stay relative to the body: skip it entirely.
+			i += 4 + int(binary.LittleEndian.Uint32(c.code[i:i+4]))
+			continue
+		}
+
 		if jumpOpcodes[opcode] {
 			// Read the current operand (4 bytes, little-endian)
 			if i+4 <= len(c.code) {
